@@ -7,6 +7,7 @@ tier R for the scaling law.
 import Rrtk.Streams.Stateful
 import Rrtk.Thm.Lemmas.Exact
 import Rrtk.Thm.Lemmas.IntScalar
+import Rrtk.Thm.Lemmas.C04Composed
 set_option linter.unusedSectionVars false
 set_option linter.unusedSimpArgs false
 namespace Rrtk.Thm.C04
